@@ -331,17 +331,20 @@ void ThreadPool::resizeLocked(ssize_t sn) {
   threads_.clear();
   DISPENSO_VERIF_POINT(::dispenso::verif::kPoolResizeAfterJoin);
 
-  // Drain all rings in the arena (including shadow entries from prior resize-up)
+  // Drain all rings in the arena (including shadow entries from prior resize-up).  Use
+  // executeNext so that workRemaining_, which was incremented when these tasks were submitted, is
+  // decremented again; otherwise every task drained here inflates the pool's load accounting for
+  // the rest of its life and schedule() starts running work inline too early.
   for (size_t i = 0; i < rings_.size(); ++i) {
     OnceFunction task;
     while (rings_[i].try_pop(task)) {
-      task();
+      executeNext(std::move(task));
     }
   }
   for (size_t i = 0; i < stealRings_.size(); ++i) {
     OnceFunction task;
     while (stealRings_[i].try_pop(task)) {
-      task();
+      executeNext(std::move(task));
     }
   }
 
